@@ -227,6 +227,13 @@ func main() {
 				scs = append(scs, resumeScenario(c.p, 4, 2, k%2 == 0, k, c.d))
 			}
 		}
+		if r.Quick() {
+			// a thread of the closed scanner that is still reading needs one deviation to be
+			// left behind and one more to run between the new scanner's reads: D=2
+			for _, k := range []int{1, 3} {
+				scs = append(scs, resumeScenario(1, 3, 0, true, k, 2))
+			}
+		}
 		e := &vexplore.Explorer{R: r, Scenarios: scs}
 		e.Run(budget)
 	})
